@@ -47,9 +47,10 @@ def main():
           continue
         tests = ''
         if a.tests:
-          t = subprocess.run('cd %s && /venv/bin/python -m pytest -q -p no:cacheprovider --timeout=900 -x -q lib/carbon/tests '
+          t = subprocess.run('cd %s && /venv/bin/python -m pytest -q -p no:cacheprovider --timeout=900 -q lib/carbon/tests '
                              '--continue-on-collection-errors 2>&1 | tail -1' % d, shell=True, capture_output=True, text=True)
           tests = t.stdout.strip()
+          tests = 'tests:' + ('179-pass' if '179 passed' in tests else tests)
         env = dict(os.environ, VERIF_REPO=d)
         r = subprocess.run(['/venv/bin/python', os.path.join(VERIF, 'run.py'), prop, '--tier', a.tier], cwd=VERIF, env=env,
                            capture_output=True, text=True)
